@@ -20,7 +20,7 @@ func (e *Env) Enabled(op Op) bool {
 	}
 	pendingEvent := len(e.Rest) > 0
 	switch op.K {
-	case QWrite, QFill, QWritePart:
+	case QWrite, QFill, QWritePart, QFillFlush:
 		return !e.InTx && !pendingEvent
 	case QFinish:
 		return !e.InTx && pendingEvent
@@ -142,6 +142,21 @@ func (e *Env) Apply(op Op) {
 				break
 			}
 			e.syncFlushed("Fill")
+		}
+	case QFillFlush:
+		for i := 0; i < 5000 && !e.Dead; i++ {
+			full := e.Full
+			off := len(e.Cur)
+			data := EventBytes(len(e.Events), off+op.A)[off:]
+			if e.writeChunks([][]byte{data}) && !e.Dead {
+				e.finishEvent()
+			}
+			if e.Full == full && !e.Dead && len(e.Viol) == 0 {
+				e.Apply(Op{K: QFlush})
+			}
+			if e.Full > full || len(e.Viol) > 0 {
+				break
+			}
 		}
 	case QFlush:
 		var err error
